@@ -50,7 +50,7 @@ def main():
         for c in checks:
             envc = dict(os.environ, ATOMMAN_REPO=str(wt))
             rcc, outc = run([str(VERIF / 'check'), c, '--tier', 'quick'], cwd=VERIF, env=envc)
-            lines = [l for l in outc.splitlines() if l.startswith('VIOLATION') or l.startswith('  ')][:6]
+            lines = [l[:400] for l in outc.splitlines() if l.startswith('VIOLATION') or l.startswith('  ')][:6]
             results[c] = {'exit': rcc, 'report': lines}
         ok = (rc0 == 0 and rc1 != 0 and '86 passed' in tail)
         meta = {'id': sid, 'breaks_property': prop, 'needs_to_manifest': needs,
@@ -72,9 +72,16 @@ def main():
     finally:
         run(['git', '-C', '/repo', 'worktree', 'remove', '--force', str(wt)])
         # restore generated lean files for the checked properties
+        sys.path.insert(0, str(VERIF))
+        import importlib
+        from harness import common as cm
         for c in checks:
-            run([str(VERIF / 'check'), c, '--tier', 'quick'], cwd=VERIF)
-
+            try:
+                mod = importlib.import_module(f'harness.props.{c.lower()}')
+                for name in getattr(mod, 'GENERATED', []):
+                    cm.restore_generated(name)
+            except Exception as e:  # noqa
+                print('restore failed', c, e)
 
 if __name__ == '__main__':
     main()
